@@ -167,6 +167,11 @@ class IndexInterp:
                 return self.env[e.id]
             if e.id in self.symbolic:
                 return ("array", e.id)
+            if e.id in ("str", "int", "float", "bool", "list", "tuple", "dict", "set", "frozenset", "complex", "bytes"):
+                return ("type", e.id)          # a built-in type used as a value (isinstance tests)
+            if (e.id in _OPERATOR_FUNCS or e.id in _OPERATOR_CMP) and self.home is not None and self.home[1] is not None \
+                    and self.home[1].imports.get(e.id, (None, None))[0] == "operator":
+                return ("attr", "operator." + e.id)          # `from operator import add`
             if self.home is not None and self.home[1] is not None and e.id in getattr(self.home[1], "functions", {}):
                 return Closure(self.home[1].functions[e.id])          # a function of the module, held as a value (a table of handlers, a callback)
             if self.home is not None and self.home[1] is not None:
@@ -317,6 +322,11 @@ class IndexInterp:
                         return False
                     left = right
                     continue
+                if isinstance(op, (ast.Is, ast.IsNot)) and is_token(left) and is_token(right) and left[0] == "type" and right[0] == "type":
+                    if (left == right) != isinstance(op, ast.Is):          # a class is one object: `type(x) is C` is `type(x) == C`
+                        return False
+                    left = right
+                    continue
                 if (_is_rat(left) or _is_rat(right)) and isinstance(op, (ast.Lt, ast.LtE, ast.Gt, ast.GtE)):
                     raise AnalysisError("ordering of a symbolic weight in `%s`" % src(e))
                 try:
@@ -366,7 +376,7 @@ class IndexInterp:
             if isinstance(base, dict):
                 if idx in base:
                     return base[idx]
-                raise AnalysisError("KeyError: `%s`" % src(e)[:60])
+                raise ProgramRaise("KeyError", "KeyError `%s`" % src(e)[:60])
             if isinstance(base, str) and (isinstance(idx, int) or (is_token(idx) and idx[0] == "slice" and all(x is None or isinstance(x, int) for x in idx[1:]))):
                 try:
                     return base[idx] if isinstance(idx, int) else base[slice(idx[1], idx[2], idx[3])]
@@ -407,6 +417,10 @@ class IndexInterp:
             return self._call(e)
         if isinstance(e, ast.Lambda):
             return Closure(e)
+        if isinstance(e, ast.NamedExpr) and isinstance(e.target, ast.Name):
+            v = self.ev(e.value)
+            self.env[e.target.id] = v
+            return v
         if isinstance(e, ast.JoinedStr):
             parts = []
             for v in e.values:
@@ -550,6 +564,26 @@ class IndexInterp:
             shape = args[0] if len(args) == 1 and isinstance(args[0], (tuple, list)) else args
             if all(isinstance(x, int) for x in shape):
                 return list(itertools.product(*[range(x) for x in shape]))
+        if nm == "reduce" and 2 <= len(args) <= 3 and (isinstance(e.func, ast.Name) or dotted(e.func.value) == "functools"):
+            f0 = args[0]
+            seq = list(self._iterate(args[1], e))
+            if len(args) == 3:
+                acc = args[2]
+            elif seq:
+                acc, seq = seq[0], seq[1:]
+            else:
+                raise ProgramRaise("TypeError", "reduce() of an empty sequence with no initial value")
+            for x in seq:
+                self.env["__red_a"], self.env["__red_b"] = acc, x
+                try:
+                    if isinstance(f0, Closure):
+                        acc = self.call_closure(f0, [acc, x], {}, e)
+                    else:
+                        acc = self.ev(ast.Call(func=e.args[0], args=[ast.Name(id="__red_a", ctx=ast.Load()), ast.Name(id="__red_b", ctx=ast.Load())], keywords=[]))
+                finally:
+                    self.env.pop("__red_a", None)
+                    self.env.pop("__red_b", None)
+            return acc
         if plain and nm == "chain" and isinstance(e.func, (ast.Name, ast.Attribute)):
             out = []
             for a0 in args:
@@ -935,6 +969,17 @@ class IndexInterp:
             self.env[target.id] = value
             if isinstance(value, Matrix):
                 value.name = target.id
+        elif isinstance(target, (ast.Tuple, ast.List)) and sum(1 for t in target.elts if isinstance(t, ast.Starred)) == 1:
+            vals = self._iterate(value, target)
+            k = [i0 for i0, t in enumerate(target.elts) if isinstance(t, ast.Starred)][0]
+            after = len(target.elts) - k - 1
+            if len(vals) < len(target.elts) - 1:
+                raise ProgramRaise("ValueError", "not enough values to unpack into `%s`" % src(target))
+            for t, v in zip(target.elts[:k], vals[:k]):
+                self._bind(t, v)
+            self._bind(target.elts[k].value, list(vals[k:len(vals) - after]))
+            for t, v in zip(target.elts[k + 1:], vals[len(vals) - after:]):
+                self._bind(t, v)
         elif isinstance(target, (ast.Tuple, ast.List)):
             vals = self._iterate(value, target)
             if len(vals) != len(target.elts):
